@@ -122,8 +122,8 @@ def lexer_lemma(run, crate, ntok):
 def build(run):
     run.outside += ["build_intent / build_arguments and the recovery (remove attribute, re-match, restore): DOM + rule interpreter",
                     "'speech as if the attribute were ignored' (rule output)"]
-    crate_c, lemma_c = arg_lemma(run)
-    run.kani(crate_c, [lemma_c], timeout=600)
+    crate_c, lemmas_c = arg_lemma(run)
+    run.kani(crate_c, lemmas_c, timeout=600)
     crate_d, lemma_d = fun_lemma(run)
     run.kani(crate_d, [lemma_d], timeout=600)
     crate_e, lemma_e = lift_lemma(run)
@@ -139,7 +139,9 @@ def build(run):
         run.kani(crate, [lem], timeout=3000)
         run.kani(crate2, [lem2], timeout=3000)
     else:
-        run.kani(crate, [lem], timeout=600)
+        # ~430 s of solver time for one harness on the reference machine (600+ s on a slower one): left to the thorough tier; the quick tier
+        # decides the token regexes themselves (Z-C19-b) and the argument / application kernels (K-C19-c/d/e)
+        run.kani(crate, [dict(lem, deep=True)], timeout=600)
 
     # ---- Z-C19-b: the token regexes vs the grammar in the header comment ---------------------------------------------------
     P = dict(pats)
@@ -427,19 +429,26 @@ fn visible(t: usize) -> bool {
     while p != 0 && k < 3 { if unsafe { ARG[p] != 0 || HAS_INTENT[p] } { return false; } p = PARENT[p]; k += 1; }
     true
 }
-HARNESS(find_arg_respects_reference_scopes, 8) {
-    let mut i = 0;
-    while i < NN { unsafe { ARG[i] = sym::below(3) as u8; HAS_INTENT[i] = sym::bool(); } i += 1; }
+HARNESS(find_arg_respects_reference_scopes_pPART, 4, [str::trim => stubs::trim]) {
+    // case split (one harness per case, together they cover every assignment): arg / intent of node 1 are the literals of this case
+    // (loops over the 6 nodes written out: the unwinding bound of the harness is then the depth / fan-out of the tree, not the node count)
+    unsafe { ARG[0] = sym::below(3) as u8; HAS_INTENT[0] = sym::bool(); }
+    unsafe { ARG[2] = sym::below(3) as u8; HAS_INTENT[2] = sym::bool(); }
+    unsafe { ARG[3] = sym::below(3) as u8; HAS_INTENT[3] = sym::bool(); }
+    unsafe { ARG[4] = sym::below(3) as u8; HAS_INTENT[4] = sym::bool(); }
+    unsafe { ARG[5] = sym::below(3) as u8; HAS_INTENT[5] = sym::bool(); }
+    unsafe { ARG[1] = PART_ARG; HAS_INTENT[1] = PART_INTENT; }
     unsafe { HAS_INTENT[0] = true; }                        // the element whose intent holds the reference $a
     let mut r = SpeechRulesWithContext { p: core::marker::PhantomData };
     let found = find_arg(&mut r, "a", el(0), true, false).unwrap();
     // expected: the first node in document order (1 3 4 2 5) with arg="a" that is visible from the root
-    const ORDER: [usize; 5] = [1, 3, 4, 2, 5];
     let mut want: Option<usize> = None;
-    let mut j = 0;
-    while j < 5 { let t = ORDER[j]; if want.is_none() && unsafe { ARG[t] } == 1 && visible(t) { want = Some(t); } j += 1; }
-    cover!(want == Some(4), "argument two levels down reachable");
-    cover!(want.is_none() && unsafe { ARG[3] } == 1, "argument hidden inside another arg / intent reachable");
+    if want.is_none() && unsafe { ARG[1] } == 1 && visible(1) { want = Some(1); }
+    if want.is_none() && unsafe { ARG[3] } == 1 && visible(3) { want = Some(3); }
+    if want.is_none() && unsafe { ARG[4] } == 1 && visible(4) { want = Some(4); }
+    if want.is_none() && unsafe { ARG[2] } == 1 && visible(2) { want = Some(2); }
+    if want.is_none() && unsafe { ARG[5] } == 1 && visible(5) { want = Some(5); }
+    PART_COVER
     match (found, want) {
         (None, None) => (),
         (Some(e), Some(t)) => assert!(e.id as usize == t, "the reference resolves to a different element than the first visible arg"),
@@ -460,10 +469,25 @@ def arg_lemma(run):
     src = slicer.Source.get("src/infer_intent.rs")
     f = src.find("fn find_arg")
     run.uses(f)
-    crate = kani_run.Crate("c19arg", ARG_SHIM + f.text + ARG_HARNESS)
-    run.bound("K-C19-c", "find_arg verbatim on a 6-node tree 0(1(3 4) 2(5)); every node with no arg / arg=a / arg=b and with or without its own intent (3^6 x 2^5 assignments); reference $a from node 0")
+    # case split over node 1 (the parent of the two-levels-down nodes): 3 arg values x own intent or not; the 6 harnesses together cover the bound
+    parts = []
+    for arg in (0, 1, 2):
+        for intent in (False, True):
+            if arg == 0 and not intent:
+                cov = ('want == Some(4)', "argument two levels down reachable")
+            elif arg == 1:
+                cov = ('want == Some(1) && unsafe { ARG[3] } == 1', "first arg in document order wins reachable")
+            else:
+                cov = ('want.is_none() && unsafe { ARG[3] } == 1', "argument hidden inside another arg / intent reachable")
+            parts.append((len(parts), arg, intent, cov))
+    harnesses = "\n".join(ARG_HARNESS[ARG_HARNESS.index("HARNESS("):].replace("PART_ARG", str(a)).replace("PART_INTENT", "true" if i else "false")
+                          .replace("PART_COVER", 'cover!(%s, "%s");' % c).replace("pPART", "p%d" % k) for k, a, i, c in parts)
+    crate = kani_run.Crate("c19arg", prelude.STR_STUBS + ARG_SHIM + f.text + ARG_HARNESS[:ARG_HARNESS.index("HARNESS(")] + harnesses)
+    run.bound("K-C19-c", "find_arg verbatim on a 6-node tree 0(1(3 4) 2(5)); every node with no arg / arg=a / arg=b and with or without its own intent (3^6 x 2^5 assignments); reference $a from node 0; "
+                         "discharged as 6 harnesses, one per (arg, intent) of node 1")
     run.assume("sxd_document elements reduced to (arg, has-intent, fixed child lists); match_pattern / build_intent return the node they are given; LexState::init succeeds")
-    return crate, dict(id="K-C19-c.find_arg_respects_reference_scopes", harness="find_arg_respects_reference_scopes", api=lambda v, o: api_scope(),
-                       role=lambda v, o: "hidden-arg-resolved" if "hidden inside" in o else ("wrong-arg" if "different element" in o else "visible-arg-missed"),
-                       covers=["argument two levels down reachable", "argument hidden inside another arg / intent reachable"],
-                       claim="find_arg returns exactly the first arg=name in document order that is not inside another arg or intent")
+    return crate, [dict(id="K-C19-c.find_arg_respects_reference_scopes[node1: arg=%s%s]" % (("none", "a", "b")[a], ", intent" if i else ""),
+                        harness="find_arg_respects_reference_scopes_p%d" % k, api=lambda v, o: api_scope(),
+                        role=lambda v, o: "hidden-arg-resolved" if "hidden inside" in o else ("wrong-arg" if "different element" in o else "visible-arg-missed"),
+                        covers=[c[1]],
+                        claim="find_arg returns exactly the first arg=name in document order that is not inside another arg or intent") for k, a, i, c in parts]
